@@ -931,7 +931,7 @@ fn gen_case(rng: &mut Rng, cfg: &Cfg) -> Case {
     }
     let adv_rate = if cfg.property == "C08" || cfg.property == "C11" { 4 } else { 12 };
     let adv_addr = g.rng.chance(1, adv_rate);
-    Case { prefix: g.rng.below(4) as u8, n_accounts, n_denoms, n_validators, init_balances, module_faults, unbonding_secs, module_cfg, adv_addr, creator_checksums: g.rng.chance(1, 5), plain_accounts, focus: cfg.property.clone(), prestore, ops }
+    Case { prefix: g.rng.below(4) as u8, n_accounts, n_denoms, n_validators, init_balances, module_faults, unbonding_secs, module_cfg, adv_addr, creator_checksums: g.rng.chance(1, 5), plain_accounts, focus: cfg.property.clone(), prestore, std_api: g.rng.chance(1, 4), ops }
 }
 
 // ------------------------------------------------------------------ minimisation
